@@ -41,6 +41,23 @@ class Fail(Exception):
 
 
 
+class user_recursion_limit:
+    """Hypothesis raises the interpreter's recursion limit while a test runs; inside this block the code under
+    test has the head-room a user has at Python's default limit (1000 frames, ~950 of them free)"""
+
+    def __enter__(self):
+        import sys
+        depth, f = 0, sys._getframe()
+        while f is not None:
+            depth, f = depth + 1, f.f_back
+        self.old = sys.getrecursionlimit()
+        sys.setrecursionlimit(depth + 950)
+
+    def __exit__(self, *a):
+        import sys
+        sys.setrecursionlimit(self.old)
+
+
 def is_flaky(e):
     """Hypothesis reports 'flaky' when a replayed history behaves differently from its first run - which is what
     happens when the code under test keeps state between histories (itself a violation that was recorded)"""
